@@ -2,7 +2,9 @@ package props
 
 import (
 	"bytes"
+	"encoding/binary"
 	"fmt"
+	"hash/crc32"
 	"io"
 	"math"
 	"os"
@@ -269,10 +271,89 @@ func c10Size(r *rng.R) (w, h float64, keep bool) {
 	}
 }
 
+// c10Huge: one history per run with a picture file of 33-40 MiB (a scan, a photograph with embedded data) beside small
+// ones: added, saved, reopened, one more picture added, saved again - the large picture is stored and shown unmodified
+// like any other.
+func c10Huge(c *core.Ctx, r *rng.R) *core.Result {
+	res := &core.Result{}
+	small := gen.MakeImage("png", 900000+c.Case, 6, 4)
+	// a valid PNG carrying a large ancillary chunk in front of IEND
+	iend := bytes.LastIndex(small.Data, []byte("IEND")) - 4
+	if iend <= 0 {
+		res.Inconcl = "harness: generated PNG has no IEND chunk"
+		return res
+	}
+	n := (33 + r.Intn(8)) << 20
+	payload := make([]byte, n)
+	x := r.U64() | 1
+	for i := 0; i+8 <= n; i += 8 {
+		x ^= x << 13
+		x ^= x >> 7
+		x ^= x << 17
+		binary.LittleEndian.PutUint64(payload[i:], x)
+	}
+	chunk := make([]byte, 0, n+12)
+	chunk = binary.BigEndian.AppendUint32(chunk, uint32(n))
+	chunk = append(chunk, "prVt"...)
+	chunk = append(chunk, payload...)
+	chunk = binary.BigEndian.AppendUint32(chunk, crc32.ChecksumIEEE(chunk[4:]))
+	big := append(append(append([]byte{}, small.Data[:iend]...), chunk...), small.Data[iend:]...)
+	d := document.New()
+	var ledger []*picEntry
+	add := func(data []byte, w, h int, serial int) bool {
+		var err error
+		if cg := core.Catch(func() {
+			_, err = d.AddImageFromData(data, fmt.Sprintf("scan%d.png", serial), document.ImageFormatPNG, w, h, nil)
+		}); cg != nil {
+			res.Add("huge-picture/call/"+cg.Key(), "AddImageFromData panicked on a large picture: "+cg.Msg, cg.Stack)
+			return false
+		}
+		if err != nil {
+			res.Count("add_errors", 1)
+			return false
+		}
+		ledger = append(ledger, &picEntry{serial: serial, data: data, pxW: w, pxH: h, where: "body", via: "AddImageFromData(large-file)"})
+		return true
+	}
+	s1 := gen.MakeImage("png", 900100+c.Case, 5, 5)
+	if !add(s1.Data, s1.W, s1.H, 1) || !add(big, small.W, small.H, 2) {
+		res.Nontrivial = true
+		return res
+	}
+	note := fmt.Sprintf("pictures: 1 small, 1 of %d bytes", len(big))
+	b, err := d.ToBytes()
+	if err != nil {
+		res.Add("huge-picture/save-fails", "ToBytes failed with a large picture: "+err.Error(), note)
+		return res
+	}
+	c10Check(res, b, ledger, nil, 0, "huge-picture/saved", note)
+	d2, err := document.OpenFromMemory(io.NopCloser(bytes.NewReader(b)))
+	if err != nil || d2 == nil || d2.Body == nil {
+		res.Add("huge-picture/reopen-failed", fmt.Sprintf("own output with a large picture cannot be reopened: %v", err), note)
+		return res
+	}
+	d = d2
+	s2 := gen.MakeImage("png", 900200+c.Case, 7, 3)
+	add(s2.Data, s2.W, s2.H, 3)
+	if b2, err := d.ToBytes(); err == nil {
+		c10Check(res, b2, ledger, nil, 0, "huge-picture/saved-after-reopen", note)
+	} else {
+		res.Add("huge-picture/save-fails", "ToBytes failed after reopening: "+err.Error(), note)
+	}
+	res.Count("histories_with_a_picture_above_32_MiB", 1)
+	res.Nontrivial = true
+	res.Sig = fmt.Sprintf("huge|%d", n)
+	res.Sample = map[string]interface{}{"case": c.Case, "kind": "large picture", "bytes": len(big)}
+	return res
+}
+
 func c10Case(c *core.Ctx) *core.Result {
 	res := &core.Result{}
 	r := caseRng(c)
 	document.VerifResetGlobals()
+	if c.Case == 11 {
+		return c10Huge(c, r)
+	}
 	var d *document.Document
 	foreignMedia := map[string][]byte{}
 	foreignBlips := 0
